@@ -600,8 +600,44 @@ fn gen_wide(p: &mut Prng, id: String) -> FwCase {
     FwCase { id, kind: "wide".into(), machines, fp: 0.0, fb: 0.0, t0: 0, calls, rng_seed: p.next(), extreme: 0, ni: None, prefix: vec![] }
 }
 
+/// Two different, busy machines at machine indices that are a word-size multiple apart (8, 16, 32, 64,
+/// 128, 256), all other machines inert, and a history that addresses exactly these two: any per-machine
+/// state that is keyed by a narrowed or wrapped index makes one of them see the other's state.
+fn gen_alias(p: &mut Prng, id: String) -> FwCase {
+    use enum_map::enum_map;
+    let d = *p.pick(&[8usize, 16, 32, 64, 64, 128, 256]);
+    let n = d + 1 + p.below(6) as usize;
+    let i = p.below((n - d) as u64) as usize;
+    let mut cfg = GenCfg::default();
+    cfg.dist = *p.pick(&[DistMode::Const, DistMode::Const, DistMode::Uniform]);
+    cfg.max_states = p.range(2, 4) as usize;
+    cfg.density = 60;
+    let inert = Machine::new(0, 0.0, 0, 0.0, vec![State::new(enum_map! { _ => vec![] })]).expect("inert machine");
+    let mut machines: Vec<Machine> = (0..n).map(|_| inert.clone()).collect();
+    machines[i] = genm::gen_machine(p, &cfg);
+    machines[i + d] = genm::gen_machine(p, &cfg);
+    let fp = *p.pick(&[0.0, 0.0, 0.5, 1.0]);
+    let fb = *p.pick(&[0.0, 0.0, 0.5]);
+    let single = p.chance(1, 2);
+    let mut calls = gen_history(p, n, single, 60, false);
+    // completions address the pair (and now and then a neighbour of it)
+    for (_, evs) in calls.iter_mut() {
+        for e in evs.iter_mut() {
+            let pick = |p: &mut Prng| MachineId::from_raw(match p.below(10) { 0..=3 => i, 4..=7 => i + d, 8 => i + 1, _ => n });
+            match e {
+                TriggerEvent::PaddingSent { machine } | TriggerEvent::BlockingBegin { machine } | TriggerEvent::TimerBegin { machine } | TriggerEvent::TimerEnd { machine } => {
+                    *machine = pick(p);
+                }
+                _ => {}
+            }
+        }
+    }
+    FwCase { id, kind: "alias".into(), machines, fp, fb, t0: 0, calls, rng_seed: p.next(), extreme: 0, ni: None, prefix: vec![] }
+}
+
 pub fn gen_kind(kind: &str, p: &mut Prng, id: String) -> Option<FwCase> {
     match kind {
+        "alias" => Some(gen_alias(p, id)),
         "wide" => Some(gen_wide(p, id)),
         "c02frac" => Some(gen_c02frac(p, id)),
         "extsample" => {
